@@ -1,66 +1,225 @@
 """C18 -- flat memory is a little-endian byte store with wrap-around and range checks.
 
-Units run the real Memory methods on a memory whose content is arbitrary (sym_map) and compare
-with the S-MEM view: cell(a) = memory_file.get(a, 0).
+Every unit runs the real Memory method on a memory whose content is arbitrary (sym_map, i.e. any
+reachable or unreachable dict of cells) with an arbitrary integer address/value and compares with
+the S-MEM view  cell(a) = memory_file.get(a, 0).  Because the pre-state is arbitrary and the
+post-state is stated for every cell (skolem index k), the statement holds after any history.
+
+Two instantiations, parameters read from the real Settings / constructors:
+  riscv: Memory(BYTE, 32, overflow=True, range(2**14, 2**32))
+  toy  : the memory built by ToyArchitecturalState() (HALF_WORD, 12 bits, no overflow, range(4096))
 """
 from pyvc.api import *
 from fixedint import UInt8, UInt16, UInt32, UInt64
 from architecture_simulator.uarch.memory.memory import Memory, AddressingType, MemoryAddressError, UnsupportedFunctionError
-from architecture_simulator.settings.settings import Settings
-
-LO = Settings().get()["memory_address_min_bytes"]
-ALEN = Settings().get()["memory_address_length"]
-TOP = 2 ** ALEN
+from architecture_simulator.uarch.riscv.riscv_architectural_state import RiscvArchitecturalState
+from architecture_simulator.uarch.toy.toy_architectural_state import ToyArchitecturalState
 
 
-def riscv_memory():
-    m = Memory(AddressingType.BYTE, ALEN, True, range(LO, TOP))
+class Cfg:
+    def __init__(self, name, mem, cell_t, cell_bits, lo, top, wrap):
+        self.name = name
+        self.mem = mem
+        self.cell_t = cell_t
+        self.cell_bits = cell_bits
+        self.lo = lo
+        self.top = top
+        self.wrap = wrap
+
+
+def riscv_cfg():
+    m = RiscvArchitecturalState().memory            # the memory the simulator really builds
+    check("cfg_is_flat_memory", type(m) is Memory)
+    check("cfg_params", m.address_overflow is True and m.address_length == 32 and m.memory_file_values_width == 8
+          and m.address_range.start == 2 ** 14 and m.address_range.stop == 2 ** 32)
     m.memory_file = sym_map("M", UInt8)
-    return m
+    return Cfg("riscv", m, UInt8, 8, 2 ** 14, 2 ** 32, True)
 
 
-def cell(m, a):
-    return int(m.memory_file.get(a, UInt8(0)))
+def toy_cfg():
+    m = ToyArchitecturalState().memory
+    check("cfg_is_flat_memory", type(m) is Memory)
+    check("cfg_params", m.address_overflow is False and m.address_length == 12 and m.memory_file_values_width == 16
+          and m.address_range.start == 0 and m.address_range.stop == 4096)
+    m.memory_file = sym_map("M", UInt16)
+    return Cfg("toy", m, UInt16, 16, 0, 4096, False)
 
 
-def in_range(a):
-    return LO <= a and a < TOP
+def eff(c, a):
+    """effective address of a cell access"""
+    return a % c.top if c.wrap else a
 
 
-def read_contract(width_bytes, ftype, method):
-    m = riscv_memory()
+def in_range(c, a):
+    return (c.lo <= a) & (a < c.top)
+
+
+def cell(c, a):
+    return int(c.mem.memory_file.get(a, c.cell_t(0)))
+
+
+def read_contract(c, n_cells, ftype, method):
     a = sym_int("a")
-    before = snapshot(m)
-    expect = 0
+    before = snapshot(c.mem)
     ok = True
-    for i in range(width_bytes):
-        ok = ok and in_range((a + i) % TOP)
-    for i in range(width_bytes):
-        expect = expect + cell(m, (a + i) % TOP) * 256 ** i
+    expect = 0
+    for i in range(n_cells):
+        ok = ok & in_range(c, eff(c, a + i))
+        expect = expect + cell(c, eff(c, a + i)) * (2 ** c.cell_bits) ** i
     try:
-        r = method(m, a)
+        r = method(c.mem, a)
     except MemoryAddressError as e:
         reach("raises")
-        check("raises_only_if_out_of_range", not ok)
-        check_same("frame_on_error", before, snapshot(m))
+        check("raises_only_if_touching_out_of_range", not ok)
+        check_same("frame_on_error", before, snapshot(c.mem))
         return
     reach("normal")
-    check("no_error_only_if_in_range", ok)
-    check("value", int(r) == expect)
-    check("type", type(r) is ftype)
-    check_same("read_is_pure", before, snapshot(m))
+    check("succeeds_only_if_all_in_range", ok)
+    check("value_little_endian", int(r) == expect)
+    check("result_type", type(r) is ftype)
+    check_same("read_is_pure", before, snapshot(c.mem))
 
 
-@unit("C18/Memory.read_byte/riscv")
-def read_byte_riscv():
-    read_contract(1, UInt8, lambda m, a: m.read_byte(a))
+def write_contract(c, n_cells, vtype, method):
+    a = sym_int("a")
+    v = sym_fixed("v", vtype)
+    k = sym_int("k")                       # skolem: an arbitrary cell address
+    before_k = cell(c, k)
+    present_k = k in c.mem.memory_file
+    shape = snapshot(c.mem, ignore=("memory_file",))
+    alive = True
+    exp = before_k
+    exp_present = present_k
+    for i in range(n_cells):
+        ai = eff(c, a + i)
+        alive = alive & in_range(c, ai)
+        hit = alive & (k == ai)
+        exp = ite(hit, (int(v) // (2 ** c.cell_bits) ** i) % 2 ** c.cell_bits, exp)
+        exp_present = exp_present | hit
+    try:
+        method(c.mem, a, v)
+    except MemoryAddressError as e:
+        reach("raises")
+        check("raises_only_if_touching_out_of_range", not alive)
+        # cells before the first out-of-range address have been written, nothing else changed;
+        # in particular an access entirely outside the range changes nothing
+        check("cells_after_error", cell(c, k) == exp)
+        check("presence_after_error", (k in c.mem.memory_file) == exp_present)
+        check_same("frame_on_error", shape, snapshot(c.mem, ignore=("memory_file",)))
+        return
+    reach("normal")
+    check("succeeds_only_if_all_in_range", alive)
+    check("cells_after_write", cell(c, k) == exp)
+    check("presence_after_write", (k in c.mem.memory_file) == exp_present)
+    check("stored_type", implies(k in c.mem.memory_file, type(c.mem.memory_file.get(k, c.cell_t(0))) is c.cell_t))
+    check_same("frame", shape, snapshot(c.mem, ignore=("memory_file",)))
 
 
-@unit("C18/Memory.read_halfword/riscv")
-def read_halfword_riscv():
-    read_contract(2, UInt16, lambda m, a: m.read_halfword(a))
+def unsupported_contract(c, call):
+    before = snapshot(c.mem)
+    try:
+        call(c.mem)
+    except UnsupportedFunctionError as e:
+        reach("raises")
+        check_same("frame_on_error", before, snapshot(c.mem))
+        return
+    check("must_raise_unsupported", False)
 
 
-@unit("C18/Memory.read_word/riscv")
-def read_word_riscv():
-    read_contract(4, UInt32, lambda m, a: m.read_word(a))
+# ------------------------------------------------------------------ RISC-V instantiation
+@unit("C18/Memory.read_byte/riscv", expect_reach=("normal", "raises"))
+def r_rb():
+    read_contract(riscv_cfg(), 1, UInt8, lambda m, a: m.read_byte(a))
+
+
+@unit("C18/Memory.read_halfword/riscv", expect_reach=("normal", "raises"))
+def r_rh():
+    read_contract(riscv_cfg(), 2, UInt16, lambda m, a: m.read_halfword(a))
+
+
+@unit("C18/Memory.read_word/riscv", expect_reach=("normal", "raises"))
+def r_rw():
+    read_contract(riscv_cfg(), 4, UInt32, lambda m, a: m.read_word(a))
+
+
+@unit("C18/Memory.read_doubleword/riscv", expect_reach=("normal", "raises"))
+def r_rd():
+    read_contract(riscv_cfg(), 8, UInt64, lambda m, a: m.read_doubleword(a))
+
+
+@unit("C18/Memory.write_byte/riscv", expect_reach=("normal", "raises"))
+def r_wb():
+    write_contract(riscv_cfg(), 1, UInt8, lambda m, a, v: m.write_byte(a, v))
+
+
+@unit("C18/Memory.write_halfword/riscv", expect_reach=("normal", "raises"))
+def r_wh():
+    write_contract(riscv_cfg(), 2, UInt16, lambda m, a, v: m.write_halfword(a, v))
+
+
+@unit("C18/Memory.write_word/riscv", expect_reach=("normal", "raises"))
+def r_ww():
+    write_contract(riscv_cfg(), 4, UInt32, lambda m, a, v: m.write_word(a, v))
+
+
+@unit("C18/Memory.write_doubleword/riscv", expect_reach=("normal", "raises"), tier="thorough")
+def r_wd():
+    write_contract(riscv_cfg(), 8, UInt64, lambda m, a, v: m.write_doubleword(a, v))
+
+
+@unit("C18/Memory.reset/riscv")
+def r_reset():
+    c = riscv_cfg()
+    shape = snapshot(c.mem, ignore=("memory_file",))
+    c.mem.reset()
+    k = sym_int("k")
+    check("all_cells_zero", cell(c, k) == 0)
+    check("no_cell_present", not (k in c.mem.memory_file))
+    check_same("frame", shape, snapshot(c.mem, ignore=("memory_file",)))
+
+
+# ------------------------------------------------------------------ TOY instantiation
+@unit("C18/Memory.read_halfword/toy", expect_reach=("normal", "raises"))
+def t_rh():
+    read_contract(toy_cfg(), 1, UInt16, lambda m, a: m.read_halfword(a))
+
+
+@unit("C18/Memory.read_word/toy", expect_reach=("normal", "raises"))
+def t_rw():
+    read_contract(toy_cfg(), 2, UInt32, lambda m, a: m.read_word(a))
+
+
+@unit("C18/Memory.write_halfword/toy", expect_reach=("normal", "raises"))
+def t_wh():
+    write_contract(toy_cfg(), 1, UInt16, lambda m, a, v: m.write_halfword(a, v))
+
+
+@unit("C18/Memory.write_word/toy", expect_reach=("normal", "raises"))
+def t_ww():
+    write_contract(toy_cfg(), 2, UInt32, lambda m, a, v: m.write_word(a, v))
+
+
+@unit("C18/Memory.read_byte/toy-unsupported", expect_reach=("raises",))
+def t_rb():
+    unsupported_contract(toy_cfg(), lambda m: m.read_byte(sym_int("a")))
+
+
+@unit("C18/Memory.write_byte/toy-unsupported", expect_reach=("raises",))
+def t_wb():
+    unsupported_contract(toy_cfg(), lambda m: m.write_byte(sym_int("a"), sym_fixed("v", UInt8)))
+
+
+# ------------------------------------------------------------------ canaries (must be refuted)
+@unit("C18/canary/big-endian-read", canary=True)
+def canary_big_endian():
+    c = riscv_cfg()
+    a = sym_int("a", 2 ** 14, 2 ** 20)
+    r = c.mem.read_halfword(a)
+    check("value_big_endian", int(r) == cell(c, a) * 256 + cell(c, a + 1))
+
+
+@unit("C18/canary/write-ignores-range", canary=True)
+def canary_write_range():
+    c = riscv_cfg()
+    a = sym_int("a")
+    c.mem.write_byte(a, sym_fixed("v", UInt8))   # must be able to raise: noexc is refuted
